@@ -89,7 +89,10 @@ C03Docs == FlattenSeq([i \in 1..Len(C03Names) |->
               <<Obj1(C03Names[i], C03Inner[(i % 3) + 1]),
                 Obj1(cA, Obj1(C03Names[i], JInt(1))),
                 JArr(<<JInt(0), Obj1(C03Names[i], JArr(<<JInt(7)>>))>>)>>])
-           \o <<JArr(<<JArr(<<JInt(1), JInt(2), JInt(3)>>), JArr(<<>>), JInt(5)>>), JInt(1), JObj(<<>>, <<>>)>>
+           \o <<JArr(<<JArr(<<JInt(1), JInt(2), JInt(3)>>), JArr(<<>>), JInt(5)>>), JInt(1), JObj(<<>>, <<>>),
+                JObj(<<<<233>>>>, <<JObj(<<cA, cB>>, <<JArr(<<JInt(1)>>), JArr(<<JInt(2), JInt(3)>>)>>)>>),                 \* {"e-acute":{"a":[1],"b":[2,3]}}
+                JObj(<<<<128512, 233>>, <<128512, 233, 97>>>>, <<JObj(<<cA>>, <<JArr(<<JInt(1)>>)>>), JArr(<<JArr(<<JInt(2)>>), JObj(<<<<233>>>>, <<JInt(3)>>)>>)>>),
+                JArr(<<JInt(0), JInt(1), JInt(2), JInt(3), JInt(4)>>)>>
 C03NameRoutes == [i \in 1..Len(C03Names) |-> <<N1(C03Names[i])>>]
                  \o [i \in 1..Len(C03Names) |-> <<Desc(<<SName(C03Names[i])>>)>>]
 C03Routes == << <<Child(<<SWild>>)>>, <<Desc(<<SWild>>)>>, <<Child(<<SWild>>), Child(<<SWild>>)>>,
@@ -97,12 +100,14 @@ C03Routes == << <<Child(<<SWild>>)>>, <<Desc(<<SWild>>)>>, <<Child(<<SWild>>), C
                 <<Desc(<<SFilter(LTest(FALSE, ERel(<<>>)))>>)>>,
                 <<Desc(<<SIndex(-1)>>)>>, <<Desc(<<SIndex(0)>>)>>, <<Desc(<<SSlice(ABSENT, ABSENT, -1)>>)>>,
                 <<Desc(<<SSlice(1, ABSENT, ABSENT)>>)>>, <<Child(<<SWild>>), Child(<<SIndex(-2), SIndex(0)>>)>>,
-                <<Desc(<<SWild, SIndex(-1)>>)>> >>
+                <<Desc(<<SWild, SIndex(-1)>>)>>, <<Child(<<SSlice(7, ABSENT, -2)>>)>>, <<Child(<<SSlice(-1, -9, -1)>>)>>, <<Child(<<SSlice(-9, 9, 2)>>)>>,
+                <<Desc(<<SSlice(5, ABSENT, -1)>>)>>, <<Desc(<<SSlice(ABSENT, BIG, ABSENT)>>)>>, <<Child(<<SIndex(-5), SIndex(4)>>)>> >>
 C03Queries == C03Routes \o C03NameRoutes
 \* name routes only make sense on the documents that contain that name: pick them, plus all generic routes
 C03Pick(d, q) == \/ q <= Len(C03Routes)
                  \/ LET ni == ((q - Len(C03Routes) - 1) % Len(C03Names)) + 1
                     IN d <= 3 * Len(C03Names) /\ ((d - 1) \div 3) + 1 = ni
+                 \/ d > 3 * Len(C03Names) /\ q > Len(C03Routes) /\ C03Names[((q - Len(C03Routes) - 1) % Len(C03Names)) + 1] \in {<<233>>, <<97>>}
 
 (* ---------- C04: comparisons ------------------------------------------------ *)
 C04Prims == <<JNull, JBool(TRUE), JBool(FALSE), JInt(0), F(0, 0), JInt(1), F(1, 0), JInt(-1), F(15, -1),
@@ -113,15 +118,16 @@ C04Prims == <<JNull, JBool(TRUE), JBool(FALSE), JInt(0), F(0, 0), JInt(1), F(1, 
 C04Structs == <<JArr(<<>>), JArr(<<JInt(1)>>), JArr(<<F(1, 0)>>), JArr(<<JInt(1), JInt(2)>>), JArr(<<JArr(<<JInt(1)>>)>>),
                 JObj(<<>>, <<>>), Obj1(cA, JInt(1)), Obj1(cA, F(1, 0)), JObj(<<cA, cB>>, <<JInt(1), JInt(2)>>),
                 JArr(<<JNull>>), Obj1(cA, JNull)>>
-C04Vals == C04Prims \o C04Structs \o <<NOTHING>>
+NegZero == JNum(0, 0 - 999, TRUE)             \* stored as the float -0.0 (harness), mathematically 0
+C04Vals == C04Prims \o C04Structs \o <<NegZero, NOTHING>>
 C04ValsQ == <<JNull, JBool(TRUE), JInt(0), JInt(1), F(1, 0), F(15, -1), F(1, -20), JInt(100), F(1, 2), JNum(1, 19, FALSE), F(1, 19),
               JStr(<<>>), JStr(cA), JStr(cB), JStr(<<233>>), JStr(<<128512>>),
-              JArr(<<>>), JArr(<<JInt(1)>>), JArr(<<F(1, 0)>>), JObj(<<>>, <<>>), Obj1(cA, JInt(1)), Obj1(cA, F(1, 0)), NOTHING>>
+              JArr(<<>>), JArr(<<JInt(1)>>), JArr(<<F(1, 0)>>), JObj(<<>>, <<>>), Obj1(cA, JInt(1)), Obj1(cA, F(1, 0)), NegZero, NOTHING>>
 C04V == IF Thorough THEN C04Vals ELSE C04ValsQ
 \* children {x: v1, y: v2} for all pairs, in chunks
 C04Children == Cross2(C04V, C04V, LAMBDA v, w : ObjOpt(<<cX, cY>>, <<v, w>>))
 C04ChunkDocs == LET ch == Chunks(C04Children, 40) IN [i \in 1..Len(ch) |-> JArr(ch[i])]
-C04Lits == IF Thorough THEN C04Prims ELSE <<JNull, JBool(TRUE), JInt(0), JInt(1), F(1, 0), F(1, -20), F(1, 2), JInt(100), JStr(<<>>), JStr(cA), JStr(<<233>>)>>
+C04Lits == IF Thorough THEN C04Prims ELSE <<JNull, JBool(TRUE), JInt(0), JInt(1), F(1, 0), F(1, -20), F(1, 2), JInt(100), F(1, 19), F(0, 0), JStr(<<>>), JStr(cA), JStr(<<233>>)>>
 C04Single == JArr([i \in 1..Len(C04V) |-> ObjOpt(<<cX>>, <<C04V[i]>>)])
 C04Docs == C04ChunkDocs \o <<C04Single>>
 C04PairQ == [o \in 1..6 |-> Flt1(LCmp(CmpOps[o], RelN(cX), RelN(cY)))]
@@ -223,9 +229,20 @@ C10FnQ == FlattenSeq([f \in 1..Len(C10FnExprs) |->
                 Flt1(LTest(FALSE, EFn("search", <<ELit(JStr(<<97, 98, 99>>)), RelN(cX)>>))),
                 Flt1(LTest(FALSE, EFn("match", <<ELit(JInt(1)), ELit(JStr(<<49>>))>>))),            \* non-string subject
                 Flt1(LTest(FALSE, EFn("match", <<ELit(JStr(<<49>>)), ELit(JInt(1))>>))) >>           \* non-string pattern
-C10Docs == <<C10SubjDoc, C10FnDoc>>
-C10Queries == C10ReQ \o C10FnQ
-C10Pick(d, q) == IF q <= Len(C10ReQ) THEN d = 1 /\ Stride(IF Thorough THEN 1 ELSE 3, d, q) ELSE d = 2
+C10LitQ == << Flt1(LCmp("==", EFn("length", <<ELit(JStr(<<1078, 1078>>))>>), ELit(JInt(2)))),                 \* length('zhzh') == 2
+              Flt1(LCmp("==", EFn("length", <<ELit(JStr(<<128512>>))>>), ELit(JInt(1)))),
+              Flt1(LCmp("==", EFn("length", <<RelN(cX)>>), EFn("length", <<ELit(JStr(<<26085, 26412, 97>>))>>))),
+              Flt1(LCmp("<", EFn("length", <<ELit(JStr(<<233>>))>>), ELit(JInt(2)))) >>
+\* {s: subject, p: pattern} children: the pattern comes from the document
+C10PatDocPats == << <<92, 92, 91, 97, 46, 93>>, <<92, 92, 46>>, <<97, 92, 46, 98>>, <<92, 46>>, <<91, 97, 46, 93>>, <<91, 92, 93, 93>>, <<92, 92>>,
+                   <<97, 92, 92, 98>>, <<40, 97, 124, 98, 41, 92, 46>>, <<91, 94, 92, 92, 93>>, <<97, 46, 98>>, <<91>>, <<92>> >>
+C10PatDocSubj == << <<92, 120>>, <<92, 97>>, <<92, 13>>, <<92, 46>>, <<97, 46, 98>>, <<97, 120, 98>>, <<46>>, <<93>>, <<92>>, <<97, 92, 98>>, <<97, 13, 98>>, <<120>>, <<97>> >>
+C10PatDoc == JArr(Cross2(C10PatDocSubj, C10PatDocPats, LAMBDA sj, pt : JObj(<<cP, cS>>, <<JStr(pt), JStr(sj)>>)))
+C10PatQ == << Flt1(LTest(FALSE, EFn("match", <<RelN(cS), RelN(cP)>>))), Flt1(LTest(FALSE, EFn("search", <<RelN(cS), RelN(cP)>>))) >>
+C10Docs == <<C10SubjDoc, C10FnDoc, C10PatDoc>>
+C10Queries == C10ReQ \o C10FnQ \o C10LitQ \o C10PatQ
+C10Pick(d, q) == IF q <= Len(C10ReQ) THEN d = 1 /\ Stride(IF Thorough THEN 1 ELSE 3, d, q)
+                 ELSE IF q <= Len(C10ReQ) + Len(C10FnQ) + Len(C10LitQ) THEN d = 2 ELSE d = 3
 
 (* ---------- C14: in, nin, none_of, any_of, subset_of ---------------------------- *)
 C14Elems == <<JNull, JBool(TRUE), JInt(1), JInt(2), JStr(cA), JArr(<<>>), JArr(<<JInt(1)>>), Obj1(cA, JInt(1))>>
@@ -250,7 +267,7 @@ Docs    == CASE Univ = "C01" -> C01Docs [] Univ = "C11" -> C11Docs [] Univ = "C0
 Queries == CASE Univ = "C01" -> C01Queries [] Univ = "C11" -> C11Queries [] Univ = "C03" -> C03Queries [] Univ = "C04" -> C04Queries
              [] Univ = "C05" -> C05Queries [] Univ = "C10" -> C10Queries [] Univ = "C14" -> C14Queries
 StrideN == CASE Univ = "C01" -> C01Stride [] Univ = "C11" -> C11Stride [] Univ = "C05" -> C05Stride [] Univ = "C14" -> C14Stride [] OTHER -> 1
-Mode    == CASE Univ = "C03" -> "paths" [] OTHER -> "nodes"
+Mode    == IF "VERIF_MODE" \in DOMAIN IOEnv THEN IOEnv.VERIF_MODE ELSE CASE Univ = "C03" -> "paths" [] OTHER -> "nodes"
 Pick(d, q) == CASE Univ = "C03" -> C03Pick(d, q)
                 [] Univ = "C04" -> C04Pick(d, q)
                 [] Univ = "C10" -> C10Pick(d, q)
